@@ -277,8 +277,8 @@ type procCase struct {
 	events []*eventSpec
 	eev    []*engine.Event
 	evIdx  map[*engine.Event]int
-	counts []int32 // len(events) * len(all), atomically updated by the actions
-	stray  int32   // action ran with an event that is not part of this case
+	counts []int32             // len(events) * len(all), atomically updated by the actions
+	stray  int32               // action ran with an event that is not part of this case
 	judged map[int]map[int]int // what was read when the wait returned
 	// cascades
 	childOf      map[int]int // parent event index -> child event index
@@ -286,6 +286,7 @@ type procCase struct {
 	childAdded   []int32     // per event index: the child event was added (atomic)
 	childSkipped []int32     // per event index: AddEvent returned a nil monitor for the child (atomic)
 	addErr       int32
+	epoch        []int // per event index: number of reconfigurations before it (the trigger cache is reset by AddRule)
 }
 
 func (pc *procCase) action(ri int) engine.RuleAction {
@@ -360,22 +361,35 @@ func (pc *procCase) judge(ei int, skipped bool, hasCached, cached bool, api stri
 	detail := map[string]interface{}{"rules_at_that_point": descRules(pc.m.rules), "event_number": ei, "event": descEvent(ev, pc.cs.Scopes),
 		"history_before": pc.historyBefore(ei), "executed": pc.names(got), "expected": pc.names(want.fires),
 		"monitor_nil_(skipped)": skipped, "api": api, "workers": pc.cs.Workers}
-	for _, s := range devSubsets {
-		d := pc.m.fireSet(ev, scope, s, hasCached, cached)
-		if !sameFires(got, d.fires) || (len(d.fires) > 0 && skipped) || (d.skipped && !skipped) {
-			continue
+	// Cascade children are added from worker goroutines, so with a name-keyed
+	// trigger cache the cached answer for a name may stem from any other event
+	// of that name in the same configuration epoch. This only widens the
+	// attribution to the known deviation; the case stays a violation.
+	tries := [][2]bool{{hasCached, cached}}
+	for j, o := range pc.events {
+		if j != ei && o.Name == ev.Name && pc.epoch[j] == pc.epoch[ei] && !pc.m.kindTriggers(o.Kind) {
+			tries = append(tries, [2]bool{true, false})
+			break
 		}
-		for sw := 1; sw <= devAll; sw <<= 1 {
-			if s&sw != 0 {
-				what := map[int]string{
-					devCache: "event skipped although a rule matches: the trigger pre-check answered from a cache keyed by the event name",
-					devMulti: "a rule with several kind patterns matching the same event was executed once per pattern",
-					devMask:  "a matching state rule beyond the 64th of its kind pattern was not executed",
-				}[sw]
-				report(c, devNames[sw], what, pc.stream, pc.idx, detail)
+	}
+	for _, try := range tries {
+		for _, s := range devSubsets {
+			d := pc.m.fireSet(ev, scope, s, try[0], try[1])
+			if !sameFires(got, d.fires) || (len(d.fires) > 0 && skipped) || (d.skipped && !skipped) {
+				continue
 			}
+			for sw := 1; sw <= devAll; sw <<= 1 {
+				if s&sw != 0 {
+					what := map[int]string{
+						devCache: "event skipped although a rule matches: the trigger pre-check answered from a cache keyed by the event name",
+						devMulti: "a rule with several kind patterns matching the same event was executed once per pattern",
+						devMask:  "a matching state rule beyond the 64th of its kind pattern was not executed",
+					}[sw]
+					report(c, devNames[sw], what, pc.stream, pc.idx, detail)
+				}
+			}
+			return
 		}
-		return
 	}
 	cat := ""
 	for ri := range want.fires {
@@ -479,15 +493,19 @@ func runProc(c *core.Ctx, stream string, idx int, cs *caseSpec) {
 	pc.all = append(pc.all, cs.Rules...)
 	pc.childOf, pc.via = map[int]int{}, map[int]int{}
 	stepEv := make([]int, len(cs.Hist)) // history step -> event index
+	ep := 0
 	for i := range cs.Hist {
 		if e := cs.Hist[i].Event; e != nil {
 			stepEv[i] = len(pc.events)
 			pc.events = append(pc.events, e)
+			pc.epoch = append(pc.epoch, ep)
 			if e.Child != nil {
 				pc.childOf[stepEv[i]] = len(pc.events)
 				pc.events = append(pc.events, e.Child)
+				pc.epoch = append(pc.epoch, ep)
 			}
 		} else {
+			ep++
 			pc.all = append(pc.all, cs.Hist[i].AddRules...)
 		}
 	}
@@ -633,4 +651,3 @@ func runProc(c *core.Ctx, stream string, idx int, cs *caseSpec) {
 		report(c, "diff:action-with-foreign-event", fmt.Sprintf("%d rule executions received an event object that was never added in this case", n), stream, idx, caseText(cs))
 	}
 }
-
